@@ -1,3 +1,220 @@
+//! C09 — the default codec is the rate fixed by the selection rule; API layers agree.
+use crate::core::*;
+use crate::json::J;
+use crate::kv::*;
 use crate::report::*;
-pub fn run(_ctx: &Ctx, rep: &mut Report) { rep.machinery_errors.push("not implemented".into()); }
-pub fn replay(_ctx: &Ctx, _case: &str) -> Result<(), String> { Err("not implemented".into()) }
+use crate::rt::*;
+use crate::with_engine;
+
+type V = (String, String);
+
+fn dedicated(k: usize, r: usize) -> &'static str {
+    if spec_high_selected(k, r) {
+        "high"
+    } else {
+        "low"
+    }
+}
+
+/// default-rate encoders (def with engine; rs/oneshot with the default engine) == dedicated encoder
+/// of the rule; default decoders decode what the dedicated encoder produced. Returns (checks, rates_differ).
+fn check_cfg(eng: &str, k: usize, r: usize, data: &str, seed: u64) -> Result<(u64, bool), V> {
+    let ded = dedicated(k, r);
+    let other = if ded == "high" { "low" } else { "high" };
+    let gd = build_group(eng, ded, k, r, data, 0, seed).map_err(|e| (format!("dedicated {ded}-rate encode Ok"), e))?;
+    let mut n = 0u64;
+    let mut differ = false;
+    if spec_supports(Kind::parse(other), k, r) {
+        let go = build_group(eng, other, k, r, data, 0, seed).map_err(|e| (format!("dedicated {other}-rate encode Ok"), e))?;
+        differ = go.recovery != gd.recovery;
+    }
+    let mut layers = vec!["def"];
+    if eng == "default" {
+        layers.push("rs");
+        layers.push("oneshot");
+    }
+    for layer in layers {
+        let gl = build_group(eng, layer, k, r, data, seed | 1, seed).map_err(|e| (format!("{layer} encode Ok"), e))?;
+        n += 1;
+        if gl.recovery != gd.recovery {
+            let j = (0..r).find(|&j| gl.recovery[j] != gd.recovery[j]).unwrap();
+            return Err((format!("{layer} recovery[{j}] == {ded}-rate codec's {}", hex(&gd.recovery[j])), hex(&gl.recovery[j])));
+        }
+        // the default decoder must decode the dedicated encoder's shards
+        let mixed = Group { eng: eng.to_string(), codec: layer.to_string(), k, r, bytes: gd.bytes, data: data.to_string(), soil: seed | 1, seed, originals: gd.originals.clone(), recovery: gd.recovery.clone() };
+        for (name, og, rg) in crate::c01::families(k, r).into_iter().filter(|(n, _, _)| n == "maxloss-first" || n == "every-other" || n.starts_with("single-missing@0")) {
+            let m = mixed.decode(&og, &rg, None).map_err(|e| (format!("{layer} decoder decodes {ded}-rate shards ({name})"), e))?;
+            mixed.check_restored(&og, &m).map_err(|e| (format!("{layer} decoder restores {ded}-rate shards ({name})"), e))?;
+            n += 1;
+        }
+    }
+    Ok((n, differ))
+}
+
+/// reset histories: a sequence of configurations on one default-rate object, each followed by a
+/// round compared with the dedicated codec
+fn check_history(eng: &str, layer: &str, seq: &[(usize, usize)], seed: u64) -> Result<u64, V> {
+    let kind = Kind::parse(layer);
+    let bytes = 64usize;
+    let res = guard(|| -> Result<u64, V> {
+        with_engine!(eng, E => {
+            let (k0, r0) = seq[0];
+            let mut enc = AnyEnc::<E>::new(kind, k0, r0, bytes, None).map_err(|e| ("new Ok".to_string(), format!("{e:?}")))?;
+            let mut dec = AnyDec::<E>::new(kind, k0, r0, bytes, None).map_err(|e| ("new Ok".to_string(), format!("{e:?}")))?;
+            let mut n = 0u64;
+            for (step, &(k, r)) in seq.iter().enumerate() {
+                if step > 0 {
+                    enc.reset(k, r, bytes).map_err(|e| (format!("encoder reset({k},{r}) Ok"), format!("{e:?}")))?;
+                    dec.reset(k, r, bytes).map_err(|e| (format!("decoder reset({k},{r}) Ok"), format!("{e:?}")))?;
+                }
+                let originals = data_dense(k, bytes, seed ^ step as u64);
+                let ded = dedicated(k, r);
+                let want = real_encode(eng, ded, k, r, bytes, &originals, 0).map_err(|e| ("dedicated encode Ok".to_string(), e))?;
+                for o in &originals { enc.add(o).map_err(|e| ("add Ok".to_string(), format!("{e:?}")))?; }
+                let got: Vec<Vec<u8>> = {
+                    let res = enc.encode().map_err(|e| ("encode Ok".to_string(), format!("{e:?}")))?;
+                    res.recovery_iter().map(|s| s.to_vec()).collect()
+                };
+                if got != want {
+                    return Err((format!("after resets {:?}: recovery == {ded}-rate codec's", &seq[..=step]), format!("differs (first shard {} vs {})", hex(&got[0]), hex(&want[0]))));
+                }
+                // decode dedicated shards: max loss
+                let m = k.min(r);
+                for j in 0..m { dec.add_recovery(j, &want[j]).map_err(|e| ("add_recovery Ok".to_string(), format!("{e:?}")))?; }
+                for i in m..k { dec.add_original(i, &originals[i]).map_err(|e| ("add_original Ok".to_string(), format!("{e:?}")))?; }
+                let restored: Vec<(usize, Vec<u8>)> = {
+                    let res = dec.decode().map_err(|e| ("decode Ok".to_string(), format!("{e:?}")))?;
+                    res.restored_original_iter().map(|(i, s)| (i, s.to_vec())).collect()
+                };
+                let exp: Vec<(usize, Vec<u8>)> = (0..m).map(|i| (i, originals[i].clone())).collect();
+                if restored != exp {
+                    return Err((format!("after resets {:?}: default decoder restores {ded}-rate shards", &seq[..=step]), "wrong restored set or bytes".to_string()));
+                }
+                n += 2;
+            }
+            Ok(n)
+        })
+    });
+    match res {
+        Ok(r) => r,
+        Err(p) => Err(("no panic".into(), format!("PANIC: {p}"))),
+    }
+}
+
+fn parse_seq(s: &str) -> Vec<(usize, usize)> {
+    s.split(';').map(|p| {
+        let (a, b) = p.split_once(':').expect("k:r");
+        (a.parse().unwrap(), b.parse().unwrap())
+    }).collect()
+}
+fn fmt_seq(s: &[(usize, usize)]) -> String {
+    s.iter().map(|(k, r)| format!("{k}:{r}")).collect::<Vec<_>>().join(";")
+}
+
+fn run_case(kv: &Kv) -> Result<(u64, bool), V> {
+    match kv.str("what") {
+        "cfg" => check_cfg(kv.str("eng"), kv.usize("k"), kv.usize("r"), kv.str("data"), kv.u64("seed")),
+        "hist" => check_history(kv.str("eng"), kv.str("layer"), &parse_seq(kv.str("seq")), kv.u64("seed")).map(|n| (n, true)),
+        w => panic!("what {w}"),
+    }
+}
+
+pub fn replay(_ctx: &Ctx, case: &str) -> Result<(), String> {
+    let kv = Kv::parse(case)?;
+    run_case(&kv).map(|_| ()).map_err(|(e, o)| format!("expected {e}; observed {o}"))
+}
+
+pub fn run(ctx: &Ctx, rep: &mut Report) {
+    let seed = ctx.seed;
+    rep.rule = "case = (engine, (k,r)): default-rate encoder (and ReedSolomonEncoder, one-shot encode on the default engine) byte-equal to the dedicated codec chosen by the rule np2(k)>np2(r) or (equal and k<=r) -> high, on basis-in-slots data (equality of the whole generator), and the default decoders decode the dedicated encoder's shards; histories = every sequence of up to 3 configurations from a 9-member alphabet on one object; non-trivial = configurations where the high- and low-rate codes really differ (so the rule is observable), and all histories; distinct by (engine,k,r) / (engine,layer,sequence)".into();
+    let (nmax, amax) = if ctx.thorough() { (130usize, 40usize) } else { (40, 12) };
+    let mut cases = Vec::new();
+    for k in 1..=nmax {
+        for r in 1..=nmax {
+            let engs: Vec<&str> = if k <= amax && r <= amax { engines_all() } else { vec!["nosimd"] };
+            for eng in engs {
+                let data = if k <= 24 { "basis".to_string() } else { "dense:64".to_string() };
+                cases.push(Kv::new().with("what", "cfg").with("eng", eng).with("k", k).with("r", r).with("data", data).with("seed", seed));
+            }
+        }
+    }
+    rep.bound("cfg", J::s(format!("[1..{nmax}]^2 on nosimd, [1..{amax}]^2 on all engines (basis-in-slots data up to k=24, dense above)")));
+    if ctx.thorough() {
+        for n in 1..=15u32 {
+            for a in [-1i64, 0, 1] {
+                for b in [-1i64, 0, 1] {
+                    let (k, r) = (((1i64 << n) + a) as usize, ((1i64 << n) + b) as usize);
+                    if k >= 1 && r >= 1 && spec_supports(Kind::Def, k, r) && (k > nmax || r > nmax) {
+                        let eng = if engines_fast().contains(&"avx2") { "avx2" } else { "nosimd" };
+                        cases.push(Kv::new().with("what", "cfg").with("eng", eng).with("k", k).with("r", r).with("data", "dense:2").with("seed", seed));
+                    }
+                }
+            }
+        }
+        rep.bound("pow2_neighbours", J::s("(2^n+a, 2^n+b), a,b in {-1,0,1}, n<=15, inside the envelope"));
+    }
+    let alpha = [(3usize, 3usize), (3, 4), (3, 5), (4, 3), (5, 3), (9, 2), (2, 9), (17, 16), (16, 17)];
+    let depth = 3;
+    let mut seqs: Vec<Vec<(usize, usize)>> = vec![vec![]];
+    let mut all: Vec<Vec<(usize, usize)>> = Vec::new();
+    for _ in 0..depth {
+        let mut next = Vec::new();
+        for s in &seqs {
+            for a in alpha {
+                let mut t = s.clone();
+                t.push(a);
+                next.push(t);
+            }
+        }
+        all.extend(next.iter().cloned());
+        seqs = next;
+    }
+    for s in &all {
+        if s.len() < 2 {
+            continue;
+        }
+        for (eng, layer) in [("nosimd", "def"), ("default", "rs"), ("avx2", "def")] {
+            if eng == "avx2" && (!engines_fast().contains(&"avx2") || (!ctx.thorough() && s.len() > 2)) {
+                continue;
+            }
+            cases.push(Kv::new().with("what", "hist").with("eng", eng).with("layer", layer).with("seq", fmt_seq(s)).with("seed", seed));
+        }
+    }
+    rep.bound("histories", J::s(format!("all sequences of 2..={depth} configurations over {alpha:?} on DefaultRate<NoSimd> and ReedSolomonEncoder/Decoder (DefaultRate<Avx2>: length 2 in quick, 3 in thorough)")));
+
+    let results: Vec<Result<(u64, bool), V>> = par_for(cases.len(), 4, |i| match guard(|| run_case(&cases[i])) {
+        Ok(r) => r,
+        Err(p) => Err(("no panic".into(), format!("PANIC: {p}"))),
+    });
+    let mut differ_cfgs = 0u64;
+    let mut same_cfgs = 0u64;
+    for (kv, res) in cases.iter().zip(results) {
+        rep.states += 1;
+        match res {
+            Ok((n, differ)) => {
+                rep.evaluations += n;
+                rep.traces += n;
+                rep.transitions += n;
+                if differ {
+                    rep.distinct += 1;
+                    if kv.str("what") == "cfg" {
+                        differ_cfgs += 1;
+                    }
+                } else {
+                    same_cfgs += 1;
+                }
+            }
+            Err((exp, obs)) => rep.violation(Violation {
+                key: format!("{}-{}-{}", kv.str("what"), kv.str("eng"), if kv.str("what") == "cfg" { format!("k{}r{}", kv.str("k"), kv.str("r")) } else { format!("{}-{}", kv.str("layer"), kv.str("seq")) }),
+                case: kv.dump(),
+                expected: exp,
+                observed: obs,
+            }),
+        }
+    }
+    rep.extra("cfg_cases_where_rates_differ", J::i(differ_cfgs));
+    rep.extra("cfg_cases_where_rates_coincide", J::i(same_cfgs));
+    for i in [0, cases.len() / 3, cases.len() / 2, cases.len() - 1] {
+        rep.sample(cases[i].dump());
+    }
+}
